@@ -19,7 +19,7 @@ from nflows import transforms as T
 PROPERTY = "C08"
 RULE = (
     "(1) every well-formed wrapper program with <=6 (thorough <=7) nodes over 6 non-commuting leaves {2x+1, -0.5x+3, LeakyReLU(0.2), ReversePermutation(3), "
-    "MaskedAffineAutoregressive(3) with pattern weights, the same with a 2-d context}, forward and inverse, on a 2x3 batch; (2) MultiscaleCompositeTransform for every input shape with <=3 non-batch "
+    "MaskedAffineAutoregressive(3) with pattern weights, the same with a 2-d context}, forward and inverse, on a 2x3 batch, plus flat composites of 10..25 parts (parts handed over as generator / tuple / list); (2) MultiscaleCompositeTransform for every input shape with <=3 non-batch "
     "dims of sizes 2..5, every split_dim <= ndim, 1..3 stages (stage k = x -> prime_k * x + 10^(k+1) + context value, so every stage must be handed the context), incl. the combinations its constructor must reject, plus the documented "
     "misuse errors. Non-trivial = program with >=2 leaves or a multiscale with >=2 stages."
 )
@@ -40,6 +40,22 @@ def bounds(tier, seed):
 _LEAVES = None
 
 
+class NoCtx(T.Transform):
+    """a context-free transform used inside context-carrying programs: it ignores the context it is handed
+    (a MADE built without context features raises when it is given one)"""
+
+    def __init__(self, inner):
+        super().__init__()
+        self.inner = inner
+
+    def forward(self, x, context=None):
+        return self.inner(x)
+
+    def inverse(self, y, context=None):
+        return self.inner.inverse(y)
+
+
+
 def leaves():
     global _LEAVES
     if _LEAVES is None:
@@ -48,7 +64,7 @@ def leaves():
         fill(maf, ("pat", 1, 0.8))
         mafc = T.MaskedAffineAutoregressiveTransform(3, 4, context_features=2, num_blocks=1)
         fill(mafc, ("pat", 2, 0.8))
-        _LEAVES = [T.PointwiseAffineTransform(shift=1.0, scale=2.0), T.PointwiseAffineTransform(shift=3.0, scale=-0.5), T.LeakyReLU(0.2), T.ReversePermutation(3), maf.double().eval(), mafc.double().eval()]
+        _LEAVES = [T.PointwiseAffineTransform(shift=1.0, scale=2.0), T.PointwiseAffineTransform(shift=3.0, scale=-0.5), T.LeakyReLU(0.2), T.ReversePermutation(3), NoCtx(maf.double().eval()), mafc.double().eval()]
         for l in _LEAVES:
             l.double()
     return _LEAVES
@@ -131,10 +147,7 @@ def check_program(ast):
     for inverse in (False, True):
         name = "inverse" if inverse else "forward"
         with torch.no_grad():
-            try:
-                ry, rl = interp(ast, X, inverse)
-            except Exception:
-                continue  # the hand-chained evaluation itself is undefined (cannot happen with these leaves)
+            ry, rl = interp(ast, X, inverse)  # the hand-chained evaluation is defined for every program over these leaves (an exception here is a harness error)
             try:
                 y, l = m.inverse(X, CTX) if inverse else m.forward(X, CTX)
             except Exception as e:
@@ -222,7 +235,9 @@ def check_multiscale(case):
         cur = shape
         for k in range(stages):
             t = CtxAffine(PRIMES[k], 10.0 ** (k + 1))
-            nxt = ms.add_transform(t, cur)
+            # the declared shape comes as a tuple, a list or a torch.Size in turn (all are accepted by the constructor's contract)
+            kind = (stages + len(shape) + k) % 3
+            nxt = ms.add_transform(t, cur if kind == 0 else (list(cur) if kind == 1 else torch.Size(cur)))
             if k != stages - 1:
                 exp_hidden = shape_after_split(cur, sd)[1]
                 if tuple(nxt) != exp_hidden:
@@ -329,6 +344,9 @@ def ms_cases():
                     yield {"shape": list(shape), "split_dim": sd, "stages": st}
 
 
+LONG_SIZES = (10, 11, 12, 13, 21, 25)
+
+
 def units(tier, seed):
     maxn = 6 if tier == "quick" else 7
     us = []
@@ -336,6 +354,7 @@ def units(tier, seed):
         parts = 1 if n <= 4 else (4 if n == 5 else 16)
         for i in range(parts):
             us.append(("prog", n, i, parts))
+    us.append(("long",))
     for i in range(8):
         us.append(("ms", i, 8))
     us.append(("misuse",))
@@ -360,6 +379,20 @@ def run_unit(unit):
                 res["violations"].append({"key": "wrappers|%s|%s|%s" % (kind, cell, sym), "case": {"kind": "prog", "ast": ast}, "msg": msg})
             if not res["samples"] and n >= 4:
                 res["samples"].append({"program": show(ast)})
+    elif unit[0] == "long":
+        # flat composites with many non-commuting parts (more than 10: container keys "10", "11", ... sort before "2")
+        for n in LONG_SIZES:
+            for off in range(3):
+                ast = ("C", [("L", (j + off) % 5) for j in range(n)])
+                vs = check_program(ast)
+                res["evaluations"] += 1
+                res["states"] += 1
+                res["transitions"] += 2 * (1 + n)
+                res["traces"] += 2
+                res["nontrivial"] += 1
+                bump(res["outcomes"], "long-composite:%s" % ("violation" if vs else "ok"))
+                for cell, sym, msg in vs:
+                    res["violations"].append({"key": "wrappers|composite-long|%s|%s" % (cell, sym), "case": {"kind": "prog", "ast": ast}, "msg": msg if len(msg) < 600 else msg[:600] + " ..."})
     elif unit[0] == "ms":
         _, i, k = unit
         for case in list(ms_cases())[i::k]:
